@@ -44,7 +44,7 @@ PUNCT_KEYS = ["q r", "foo-bar", "a.b", "it's", 'say "hi"', "back\\slash", "path/
               "first name", "e-mail", "content-type", "X-Request-Id", "a\"b", "c\\d", "tab\there", "per cent%",
               "{curly}", "[square]", "semi;colon", "co:lon", "qu?estion", "ex!clam", "a+b", "a=b", "hash#tag",
               "new\nline", " padded ", "trail ", " lead", "pipe|d", "til~de", "back`tick", "ca^ret", "am&p", "st*ar", "(paren)", "a,b", "<tag>",
-              "a\\nb", "C:\\temp\\new", "end\\", "x\\ty", "u\\x41z", "quote\\\"d"]
+              "line\u2028sep", "nel\x85char", "a\\nb", "C:\\temp\\new", "end\\", "x\\ty", "u\\x41z", "quote\\\"d"]
 NONASCII_KEYS = ["é", "ü", "ñame", "straße", "øre", "Æther", "café", "naïve", "Ключ", "значение", "имя",
                  "Ελληνικά", "όνομα", "Հայերեն", "ÀÉÎ", "łódź", "čeština", "šđžć", "ärger", "Größe",
                  "données", "año", "fianç", "Über", "пользователь", "список", "αβγ", "Ωmega",
@@ -169,7 +169,8 @@ PLAIN_WORDS = ["foo", "bar", "baz", "qux", "alpha", "beta", "gamma", "delta", "h
                "no", "on", "off", "open", "closed", "red", "green", "blue", "admin", "guest", "v1", "id-7", "none",
                "null", "tru", "fals", "abc", "ABC", "Abc"]
 LITERAL_17 = ["l%02d" % i for i in range(17)]
-TRICKY_CHARS = ['"', "\\", "\n", ",", "\t", "'", "é", "ß", "Ж", "😀", "𝔘", " ", "a", "b", "{", "}", "%", "$"]
+TRICKY_CHARS = ['"', "\\", "\n", ",", "\t", "'", "é", "ß", "Ж", "😀", "𝔘", " ", "a", "b", "{", "}", "%", "$",
+                "\u2028", "\u2029", "\x85", "\x0c", "\x1d"]     # the last five: str.splitlines() separators that JSON leaves raw or escapes
 LONG_STRS = ["x" * n for n in (18, 19, 20, 21, 22)] + ["lorem ipsum dolor sit amet consectetur", "a,b" * 7]
 
 INT_STRS = ["0", "1", "-1", "+7", "42", "007", "1_000", " 12 ", "12\n", "٣", "１２", "-0", "1__0", "_1", "1_",
@@ -409,6 +410,24 @@ def dictlike_samples(draw, universe, strs=None):
     return samples
 
 
+@st.composite
+def literal_boundary_samples(draw, universe, strs=None):
+    """13-17 distinct short strings (or strings around 20 characters) at one position, spread over samples / containers"""
+    k = draw(st.sampled_from(universe))
+    n = draw(st.sampled_from([13, 14, 15, 15, 16, 17]))
+    pool = draw(st.permutations(LITERAL_17))[:n]
+    if draw(st.integers(0, 3)) == 0:
+        pool = pool[:3] + [draw(st.sampled_from(LONG_STRS))]
+    mode = draw(st.sampled_from(["scalar", "list", "list2"]))
+    if mode == "scalar":
+        return [{k: s} for s in pool]
+    if mode == "list":
+        cut = draw(st.integers(0, len(pool)))
+        return [{k: pool[:cut]}, {k: pool[cut:]}]
+    cut = draw(st.integers(1, len(pool)))
+    return [{k: [pool[:cut], pool[cut:]]}]
+
+
 def sample_lists(universe, strs=None, max_samples=5, max_leaves=10, weights=None):
     """G-JSON: the mix of generic and boosted shapes for one key universe."""
     parts = [
@@ -421,6 +440,7 @@ def sample_lists(universe, strs=None, max_samples=5, max_leaves=10, weights=None
         presence_samples(universe, strs),
         shared_child_samples(universe, strs),
         dictlike_samples(universe, strs),
+        literal_boundary_samples(universe, strs),
     ]
     return st.one_of(*parts)
 
